@@ -256,6 +256,46 @@ def run(ctx, rep):
                 ok = row is not None and (row[0] != "guard-nonzero" or nonzero)
                 rep.ob("arith-panic", inst, ok, (f"allowed: {row[1]}" if ok else f"overflow-checked `{kind.split(':')[1]}` on an input value panics in builds with overflow checks (the dev profile the test suite uses); use the wrapping_ form"), b.file, t["l"])
     rep.floor("arith-panic", "arithmetic operations examined in the evaluator", n_arith, 4)
+    # ---- (E) indexing of input text ---------------------------------------------------------------------------------------
+    rep.rule("text-index", "in the modules that parse user-written text (glob_match, version_script, export_list, linker_script, expression_eval, args) every slice/str index "
+             "expression is a row of the table with the reason it is in bounds; a new index (e.g. `s[pos + 1]` after a memchr) is reported")
+    TEXT_MODULES = ("libwild::glob_match::", "libwild::version_script::", "libwild::export_list::", "libwild::linker_script::", "libwild::args::", "libwild::expression_eval::")
+    INDEX_OK = {
+        "libwild::args::elf::setup_argument_parser::{closure}": (6, "parts[0]/parts[1] after `parts.len() != 2` bails; `&s[2..]` after starts_with(\"0x\")"),
+        "libwild::args::elf::setup_argument_parser::{closure}::{closure}": (1, "parts[1] inside the error-message closure of the same `parts.len() == 2` arm"),
+        "libwild::args::ArgumentParser::handle_nested_argument": (3, "`..eq_pos`/`eq_pos + 1..` from str::find('=') (1-byte char); `&arg[1..]` after starts_with('-') && len() > 1"),
+        "libwild::expression_eval::line_number": (1, "`..parsed_len` with parsed_len = len.saturating_sub(..) <= len"),
+        "libwild::linker_script::parse_identifier_or_function::{closure}": (3, "s[0] in `.verify` of a take_while(1.., ..) match: at least one byte"),
+        "libwild::linker_script::parse_function_arg::{closure}": (3, "s[0] in `.verify` of a take_while(1.., ..) match: at least one byte"),
+    }
+    found = {}
+    lines = {}
+    for b in F.all_bodies:
+        sk = stable(b.key)
+        if not sk.startswith(TEXT_MODULES):
+            continue
+        for blk in b.blocks:
+            if blk.get("cleanup"):
+                continue
+            t = blk["t"]
+            hit = False
+            if t["k"] == "assert" and (t.get("desc") or "") == "bounds":
+                hit = True
+            elif t["k"] == "call":
+                ck = callee_key(t["f"]) or ""
+                fa = t["f"].get("fn_args") or ""
+                if ck.endswith(("slice::index::index", "slice::index::index_mut", "str::traits::index")) or ("Index>::index" in ck and ("[u8]" in fa or "str" in fa)):
+                    hit = True
+            if hit:
+                found[sk] = found.get(sk, 0) + 1
+                lines.setdefault(sk, (b.file, t["l"]))
+    for sk, n in sorted(found.items()):
+        row = INDEX_OK.get(sk)
+        ok = row is not None and n <= row[0]
+        rep.ob("text-index", sk, ok, (f"{n} index expression(s), allowed: {row[1]}" if ok else
+               f"{n} index expression(s) on input text" + (f" (table allows {row[0]}: {row[1]})" if row else " in a function that has no row") +
+               ": an out-of-range index panics instead of producing a diagnostic"), lines[sk][0], lines[sk][1])
+    rep.floor("text-index", "functions indexing input text", len(found), 4)
     rep.assume("index/slice panics and arithmetic overflow outside the expression evaluator are not decided; dependencies (object, winnow, glob) are trusted not to panic on malformed input")
 
 
